@@ -543,3 +543,36 @@ CLAIM.update({
         ref="DESIGN.md section 4, C08", technique="property-based testing (rapid) over (description, typed values, reply shape) with a reference wire-value model and round-trip oracle on compiled generated code",
         note="shares the batch builder with C07"),
 })
+
+# ---- additions after the third and fourth seed rounds and the mutation campaign (appended to the rule texts) ----
+_ADD = {
+    "C02": " Further: client pipelining (up to 5 calls in a generated send/receive order over a recording proxy that never blocks a writer and can "
+           "hold replies back until the next receive, then deliver them in one segment or under a cut plan; for a third of the cases a second "
+           "goroutine already waits in the receive function of the oldest call while later calls are sent); and, on TCP and unix sockets, a 6-40 MiB "
+           "message followed at once by the sender's close and read slowly by the peer, in both directions.",
+    "C04": " Raw call frames carry every combination of more/oneway/upgrade; method strings include interface and method parts of 254-5000 bytes "
+           "(1- to 4-byte characters).",
+    "C07": " Every other determinism run finds an older, longer file of the same name in the output directory.",
+    "C08": " Oneway steps also target methods that are not overridden or answered with a declared error; some call steps are answered by a foreign "
+           "peer with a declared error frame in shapes the generated service never sends (no, null, empty, ill-fitting parameters): the generated "
+           "client must return an error of that name and must not crash.",
+    "C09": " Plus reference structures: up to five type declarations over four names defined in terms of each other through every constructor "
+           "(rings, self-reference, dangling names), used under every constructor.",
+    "C11": " Every third receive passes nil as the output value (as generated stubs do); GetInfo and GetInterfaceDescription are exercised as "
+           "client calls of their own against the same reply streams.",
+    "C15": " Real-socket cases also require a NEW client to be served after four idle periods with connections open.",
+    "C16": " Services register a second interface out of lexical order; every client operation begins with three connections introspecting at "
+           "the same instant; a third of the schedules start serving while a RegisterInterface call (2 ms description getter) is in flight.",
+    "C17": " Further operations: Upgrade() itself as a blocking send, and the receive function returned by Upgrade under a context of its own "
+           "while the context given to Upgrade is alive or already cancelled.",
+    "C18": " Client cases on kernel sockets include: the peer sends its bytes and hangs up, the client writes raw data until a write fails, "
+           "and only then reads - everything the peer sent must still arrive.",
+    "C19": " Further pre-state: the previous serving call was shut down but has not returned (a client of it is still connected) - the object is "
+           "re-bound once that call has released its listener, and the new endpoint must survive the old call's return. Abstract and TCP cases "
+           "plant an ordinary file named like the address in the working directory, which must survive. The pool has spellings a path "
+           "normaliser would rewrite (@n//x, @n/./x, @n/, @a/../b, trailing slash, missing/../, //, /./).",
+    "C14": " Every call the harness itself makes into the service (Bind, Shutdown, GetListener, the connection count) is bounded: one that does not "
+           "return is reported as a lock left held.",
+}
+for _k, _v in _ADD.items():
+    RULE[_k] = RULE[_k] + _v
